@@ -966,3 +966,85 @@ class C04(Base):
 
 
 MONITORS["C04"] = C04
+
+
+# -- C14 / C15: sampled contracts on the arithmetic the simulation actually performs -------------------------------------------
+class C14Run(Base):
+    """Exact post-condition of Time.__add__ on a 1-in-k sample of the additions performed during a real run."""
+    prop = "C14"
+
+    def on_start(self, bus):
+        from jellyfysh.base.time import Time
+        from vf.monitors import c14
+        self.Time = Time
+        self._orig = Time.__add__
+        mon = self
+        self.n = 0
+
+        def add(t, other):
+            r = mon._orig(t, other)
+            mon.n += 1
+            if mon.n % 16 == 0 and isinstance(other, float) and other >= 0.0 and other != math.inf and t.quotient != math.inf:
+                mon.acc.count("in_run_additions_checked")
+                if t.quotient >= 1000.0:
+                    mon.acc.count("in_run_additions_checked_at_large_times")
+                c14.check_add(mon.acc, _Plain(mon._orig), t.quotient, t.remainder, other)
+            elif isinstance(other, float) and other < 0.0:
+                mon.acc.count("in_run_negative_displacements")
+            return r
+        Time.__add__ = add
+
+    def on_end(self, bus):
+        self.Time.__add__ = self._orig
+
+
+class _Plain(object):
+    """Time constructor whose instances add with the ORIGINAL __add__ (so that the monitor does not recurse into itself)."""
+
+    def __init__(self, orig):
+        self.orig = orig
+
+    def __call__(self, q, r):
+        from jellyfysh.base.time import Time
+        outer = self
+
+        class T(Time):
+            def __add__(s, o):
+                return outer.orig(s, o)
+        return T(q, r)
+
+
+class C15Run(Base):
+    """Post-condition of correct_position_entry on a sample of the calls made during a real run."""
+    prop = "C15"
+
+    def on_start(self, bus):
+        import jellyfysh.setting as setting
+        from vf.monitors import c15
+        self.pb = type(setting.periodic_boundaries)
+        self._orig = self.pb.__dict__["correct_position_entry"]
+        orig = self._orig.__func__ if isinstance(self._orig, staticmethod) else self._orig
+        L = lengths()
+        mon = self
+        self.n = 0
+
+        class P(object):
+            correct_position_entry = staticmethod(orig)
+
+        def cpe(x, i):
+            r = orig(x, i)
+            mon.n += 1
+            if mon.n % 8 == 0 and x == x and abs(x) != math.inf:
+                mon.acc.count("in_run_position_corrections_checked")
+                if not 0.0 <= x < L[i]:
+                    mon.acc.count("in_run_position_corrections_of_outside_positions")
+                c15.check_position_entry(mon.acc, P, x, i, L[i], "run")
+            return r
+        self.pb.correct_position_entry = staticmethod(cpe)
+
+    def on_end(self, bus):
+        self.pb.correct_position_entry = self._orig
+
+
+MONITORS["C14"] = C14Run
+MONITORS["C15"] = C15Run
